@@ -344,3 +344,43 @@ def c09_r2(ctx):
                             refs.add(r[1].qualname)
             ctx.ob(qcls, mcls.qualname in refs, "%s builds %s" % (qcls.name, mcls.name),
                    detail="matcher classes referenced: %s" % sorted(x.split(".")[-1] for x in refs if "atcher" in x), loc=qcls.loc)
+
+
+@rule("C09", "R5", "K3", "a derived context / copy never shares its attribute dictionary with the original",
+      min_instances=1, also=("C11", "C15"),
+      clause="No object's __dict__ is bound to another object's __dict__ (ctx.__dict__ = self.__dict__): SearchContext.set(), "
+             "which every compound query calls to derive the context of its sub-queries (weighting=None for filters, "
+             "needs_current...), must leave the caller's context untouched; the derived object is a copy (copy.copy / "
+             "dict(self.__dict__) / a fresh constructor call).")
+def c09_r5(ctx):
+    prog = ctx.prog
+    probe = ast.parse("def f(self):\n    c = object.__new__(type(self))\n    c.__dict__ = self.__dict__\n    return c\n")
+
+    def aliasing(tree):
+        out = []
+        for st in ast.walk(tree):
+            if isinstance(st, ast.Assign) and isinstance(st.value, ast.Attribute) and st.value.attr == "__dict__":
+                for t in st.targets:
+                    if isinstance(t, ast.Attribute) and t.attr == "__dict__":
+                        out.append(st)
+        return out
+    if len(aliasing(probe)) != 1:
+        raise AnalysisError("C09-R5 detector does not match its own positive example")
+    n = 0
+    for m in prog.modules.values():
+        n += 1
+        hits = aliasing(m.tree)
+        ctx.ob(m.name, not hits, "no object takes over another object's __dict__",
+               detail="; ".join("line %d: %s" % (h.lineno, norm.stmt_text(h)) for h in hits[:3]), loc=m.relpath)
+    st = prog.method("searching.SearchContext", "set", inherited=False)
+    ctx.saw(st)
+    al = norm.aliases(st.node)
+    copies = [c for c in norm.calls_in(st.node) if norm.canon(c.func) in ("copy.copy", "copy", "self.__class__", "SearchContext", "copy.deepcopy")]
+    stores_self = [s_ for s_ in ast.walk(st.node) if isinstance(s_, (ast.Assign, ast.AugAssign)) and
+                   any(norm.canon(t, al).startswith("self.") for t in (s_.targets if isinstance(s_, ast.Assign) else [s_.target]))]
+    upd_self = [c for c in norm.calls_in(st.node) if norm.call_name(c) in ("update", "setdefault", "__setattr__") and
+                norm.canon(norm.receiver(c), al).startswith("self")]
+    ctx.ob(st, bool(copies) and not stores_self and not upd_self, "SearchContext.set() builds a copy and writes only to it",
+           detail="copies: %s; writes to self: %s" % ([norm.canon(c) for c in copies], [norm.stmt_text(s_) for s_ in stores_self] + [norm.canon(c) for c in upd_self]))
+    if n < 100:
+        raise AnalysisError("only %d modules scanned" % n)
